@@ -366,7 +366,7 @@ func checkC17(p *Prog, r *Report) {
 						continue
 					}
 					// Must*-style wrappers: the obligation is at their call sites (handled below)
-					if strings.HasPrefix(fn.Name(), "Must") || strings.HasPrefix(fn.Name(), "must") {
+					if strings.HasPrefix(fn.Name(), "Must") || strings.HasPrefix(fn.Name(), "must") || p.transparent(fn) && calledOnlyFromScope(p, fn, scope) {
 						r.OKTrivial(key, "Must*-wrapper: obligation moves to each call site", site, "wrapper")
 						continue
 					}
@@ -390,7 +390,7 @@ func checkC17(p *Prog, r *Report) {
 					name := calleeName(cc)
 					site := p.Pos(x.Pos())
 					// ---------------- P-explicit: calls to module functions that may panic ----------------
-					if callee != nil && mayPanic[callee] && InModule(callee) && (strings.HasPrefix(callee.Name(), "Must") || strings.HasPrefix(callee.Name(), "must")) {
+					if callee != nil && mayPanic[callee] && InModule(callee) && (strings.HasPrefix(callee.Name(), "Must") || strings.HasPrefix(callee.Name(), "must") || p.transparent(callee) && hasPanic(callee)) {
 						nMust++
 						key := kp("PANIC", "P-explicit:"+fname+"→"+FuncName(callee)+"@"+blockTag(fn, b))
 						switch callee.Name() {
@@ -412,7 +412,21 @@ func checkC17(p *Prog, r *Report) {
 						case "MustDecode", "MustDecodeFromString":
 							r.Fail(key, "decoding externally influenced bytes with a panicking decoder", site, FuncName(callee)+" is reachable from an outside entry point: "+reach.Chain(fn))
 						default:
-							r.Undecided(key, "every Must* call in scope has a discharge rule", site, "no rule for "+FuncName(callee))
+							// an extracted helper with a panic branch: the panic's condition, in this function's vocabulary, must be
+							// unreachable here — for GetSigners: incompatible with the message's own ValidateBasic accepting
+							pc := fa.panicSummary(callee, x, o, 0)
+							if pc == nil {
+								r.Undecided(key, "every Must* call in scope has a discharge rule", site, "no rule for "+FuncName(callee))
+								break
+							}
+							cond := fAnd(fa.At(b), pc)
+							if fn.Name() == "GetSigners" && fn.Signature.Recv() != nil {
+								if A := acceptOf[recvNamed(fn)]; A != nil {
+									cond = fAnd(A, cond)
+								}
+							}
+							r.Check(!Satisfiable(cond), key, "a helper that can panic is called only where its panic condition cannot hold (for GetSigners: on no message its own ValidateBasic accepts)", site,
+								"panic condition "+clip(pc.String(), 120)+" is unsatisfiable here", fmt.Sprintf("%s panics when %s, which is possible at this call", FuncName(callee), clip(pc.String(), 200)))
 						}
 						continue
 					}
@@ -687,11 +701,11 @@ func checkC17(p *Prog, r *Report) {
 			r.Note("precondition of %s (param%d.%s != nil) has no call site in scope", FuncName(pre.fn), pre.param, pre.field)
 		}
 	}
-	r.Floor("P-explicit-panic-sites", nExplicit, 15)
+	r.Floor("P-explicit-panic-sites", nExplicit, 3)
 	r.Floor("P-explicit-must-call-sites", nMust, 10)
 	r.Floor("P-nil-sites", nNil, 5)
 	r.Floor("P-bounds-sites", nBounds, 3)
-	r.Floor("P-lib-sites", nLib, 4)
+	r.Floor("P-lib-sites", nLib, 2)
 	r.Count("P-lib-narrowing-sites", nNarrow)
 	r.Count("P-lib-division-sites", nDiv)
 	r.Floor("P-lib-key-conversion-sites", nKeyConv, 1)
@@ -1184,4 +1198,22 @@ func bigDivisionGuard(o *Origin, fa *Facts, at ssa.Instruction, cc *ssa.CallComm
 		return true, wit, dv
 	}
 	return false, "", dv
+}
+
+// calledOnlyFromScope: every use of fn is a static call from a function in scope (so the call-site rule sees each of them).
+func calledOnlyFromScope(p *Prog, fn *ssa.Function, scope []*ssa.Function) bool {
+	in := map[*ssa.Function]bool{}
+	for _, f := range scope {
+		in[f] = true
+	}
+	callers, _ := p.CallersOf(fn)
+	if len(callers) == 0 {
+		return false
+	}
+	for _, c := range callers {
+		if !in[c] {
+			return false
+		}
+	}
+	return true
 }
